@@ -1,5 +1,191 @@
 import RzmqModel.Model.Routing
-/-! Helper lemmas. -/
+/-! Helper lemmas for C13 (round-robin load balancer). -/
 namespace Rzmq
+namespace Lb
 
+/-! ### arithmetic -/
+
+theorem mod_lt_two (a n : Nat) (h : a < 2 * n) : a % n = if a < n then a else a - n := by
+  split
+  · exact Nat.mod_eq_of_lt ‹_›
+  · rw [Nat.mod_eq_sub_mod (by omega)]
+    exact Nat.mod_eq_of_lt (by omega)
+
+/-! ### basic facts about `next` -/
+
+theorem next_peers (l : Lb) : l.next.2.peers = l.peers := by
+  unfold Lb.next
+  split <;> rfl
+
+theorem next_of_ne (l : Lb) (hne : l.peers ≠ []) :
+    l.next = (l.peers[if l.nextIdx ≥ l.peers.length then 0 else l.nextIdx]?,
+      { l with nextIdx := ((if l.nextIdx ≥ l.peers.length then 0 else l.nextIdx) + 1) % l.peers.length }) := by
+  unfold Lb.next
+  split
+  · contradiction
+  · rfl
+
+theorem next_of_nil (l : Lb) (h : l.peers = []) : l.next = (none, l) := by
+  unfold Lb.next
+  split
+  · rfl
+  · contradiction
+
+theorem length_pos_of_ne {l : Lb} (hne : l.peers ≠ []) : 0 < l.peers.length :=
+  List.length_pos_iff.mpr hne
+
+/-- every selection is either `none` or a current peer -/
+theorem mem_nexts (k : Nat) (l : Lb) (x : Option Nat) (hx : x ∈ Lb.nexts k l) :
+    x = none ∨ ∃ v, v ∈ l.peers ∧ x = some v := by
+  induction k generalizing l with
+  | zero => simp [Lb.nexts] at hx
+  | succ k ih =>
+    simp only [Lb.nexts, List.mem_cons] at hx
+    rcases hx with hx | hx
+    · by_cases hne : l.peers = []
+      · left; rw [hx, next_of_nil l hne]
+      · rw [next_of_ne l hne] at hx
+        simp only at hx
+        cases hg : l.peers[if l.nextIdx ≥ l.peers.length then 0 else l.nextIdx]? with
+        | none => left; rw [hx, hg]
+        | some v =>
+          right
+          exact ⟨v, List.mem_of_getElem? hg, by rw [hx, hg]⟩
+    · have := ih l.next.2 hx
+      rwa [next_peers] at this
+
+/-! ### removal -/
+
+theorem not_mem_eraseIdx_of_nodup {l : List Nat} {u pos : Nat} (hnd : l.Nodup) (hpos : pos < l.length)
+    (hu : l[pos]? = some u) : u ∉ l.eraseIdx pos := by
+  intro hmem
+  rw [List.mem_eraseIdx_iff_getElem?] at hmem
+  obtain ⟨i, hik, hi⟩ := hmem
+  have : pos = i := (List.getElem?_inj hpos hnd).mp (by rw [hu, hi])
+  exact hik this.symm
+
+theorem idxOf?_some {l : List Nat} {u pos : Nat} (h : l.idxOf? u = some pos) :
+    pos < l.length ∧ l[pos]? = some u := by
+  rw [List.idxOf?_eq_some_iff] at h
+  obtain ⟨hlt, heq, _⟩ := h
+  exact ⟨hlt, by rw [List.getElem?_eq_getElem hlt, heq]⟩
+
+theorem not_mem_remove (l : Lb) (u : Nat) (h : l.peers.Nodup) : u ∉ (l.remove u).peers := by
+  unfold Lb.remove
+  split
+  next hn => exact List.idxOf?_eq_none_iff.mp hn
+  next pos hs =>
+    obtain ⟨hlt, hu⟩ := idxOf?_some hs
+    exact not_mem_eraseIdx_of_nodup h hlt hu
+
+/-- position of `u` in a duplicate-free list is the index where it is found -/
+theorem idxOf?_of_getElem? {l : List Nat} {u i : Nat} (hnd : l.Nodup) (hi : l[i]? = some u) :
+    l.idxOf? u = some i := by
+  have hlt : i < l.length := by
+    rcases Nat.lt_or_ge i l.length with h | h
+    · exact h
+    · rw [List.getElem?_eq_none h] at hi; cases hi
+  rw [List.idxOf?_eq_some_iff]
+  refine ⟨hlt, ?_, ?_⟩
+  · rw [List.getElem?_eq_getElem hlt] at hi
+    exact Option.some.inj hi
+  · intro j hj hcontra
+    have hjl : j < l.length := by omega
+    have : j = i := (List.getElem?_inj hjl hnd).mp (by
+      rw [hi, List.getElem?_eq_getElem hjl, hcontra])
+    omega
+
+/-! ### a corrected, inductive invariant
+
+`Lb.Good` allows an arbitrary cursor while the peer list is empty, and `Lb.add` keeps the cursor, so `Good` is not
+preserved by `add` from such a state.  Every state reachable from `{}` satisfies the stronger `Good'`. -/
+
+/-- no duplicate peers, cursor within range, and cursor `0` while the list is empty -/
+def Good' (l : Lb) : Prop := l.peers.Nodup ∧ (l.nextIdx = 0 ∨ l.nextIdx < l.peers.length)
+
+theorem Good'.good {l : Lb} (h : Good' l) : Lb.Good l := by
+  refine ⟨h.1, ?_⟩
+  rcases h.2 with h0 | hlt
+  · by_cases hne : l.peers = []
+    · exact Or.inl hne
+    · right; rw [h0]; exact length_pos_of_ne hne
+  · exact Or.inr hlt
+
+theorem good'_init : Good' {} := by
+  refine ⟨List.nodup_nil, Or.inl rfl⟩
+
+theorem nodup_add (l : Lb) (u : Nat) (h : l.peers.Nodup) : (l.add u).peers.Nodup := by
+  unfold Lb.add
+  split
+  · exact h
+  next hc =>
+    have hnm : u ∉ l.peers := by simpa using hc
+    simp only
+    rw [List.nodup_append]
+    refine ⟨h, by simp, ?_⟩
+    intro a ha b hb
+    simp only [List.mem_singleton] at hb
+    subst hb
+    intro hab
+    subst hab
+    exact hnm ha
+
+theorem add_peers_length_le (l : Lb) (u : Nat) : l.peers.length ≤ (l.add u).peers.length := by
+  unfold Lb.add
+  split <;> simp
+
+theorem add_nextIdx (l : Lb) (u : Nat) : (l.add u).nextIdx = l.nextIdx := by
+  unfold Lb.add
+  split <;> rfl
+
+theorem good'_add (l : Lb) (u : Nat) (h : Good' l) : Good' (l.add u) := by
+  refine ⟨nodup_add l u h.1, ?_⟩
+  rw [add_nextIdx]
+  have := add_peers_length_le l u
+  rcases h.2 with h0 | hlt
+  · exact Or.inl h0
+  · right; omega
+
+/-- `good_add` with the hypothesis that is missing from the statement in `Props/C13.lean` -/
+theorem good_add_fixed (l : Lb) (u : Nat) (h : Lb.Good l) (h0 : l.peers = [] → l.nextIdx = 0) :
+    Lb.Good (l.add u) := by
+  apply Good'.good
+  apply good'_add
+  refine ⟨h.1, ?_⟩
+  rcases h.2 with he | hlt
+  · exact Or.inl (h0 he)
+  · exact Or.inr hlt
+
+theorem good'_next (l : Lb) (h : Good' l) : Good' l.next.2 := by
+  by_cases hne : l.peers = []
+  · rw [next_of_nil l hne]; exact h
+  · rw [next_of_ne l hne]
+    exact ⟨h.1, Or.inr (Nat.mod_lt _ (length_pos_of_ne hne))⟩
+
+theorem good'_remove (l : Lb) (u : Nat) (h : Good' l) : Good' (l.remove u) := by
+  obtain ⟨hnd, hc⟩ := h
+  unfold Lb.remove
+  split
+  · exact ⟨hnd, hc⟩
+  next pos hs =>
+    obtain ⟨hlt, _⟩ := idxOf?_some hs
+    refine ⟨hnd.eraseIdx pos, ?_⟩
+    have hlen : (l.peers.eraseIdx pos).length = l.peers.length - 1 := List.length_eraseIdx_of_lt hlt
+    simp only
+    by_cases h1 : (pos < l.nextIdx && l.nextIdx > 0) = true
+    · rw [if_pos h1]
+      simp at h1
+      right; omega
+    · rw [if_neg h1]
+      by_cases h2 : l.nextIdx ≥ (l.peers.eraseIdx pos).length
+      · rw [if_pos h2]; exact Or.inl rfl
+      · rw [if_neg h2]; right; omega
+
+/-- `C13.good_add` is false as stated: `Good` allows a stale cursor while the list is empty -/
+theorem good_add_counterexample :
+    Lb.Good { peers := [], nextIdx := 1 } ∧ ¬ Lb.Good (({ peers := [], nextIdx := 1 } : Lb).add 0) := by
+  unfold Lb.Good
+  decide
+
+end Lb
 end Rzmq
